@@ -173,14 +173,35 @@ fn nworkers() -> usize {
 pub fn run(prop: &str, tier: Tier) -> i32 {
     let t0 = Instant::now();
     let defs = registry::scenarios(prop, tier);
-    if defs.is_empty() {
+    let cfgs = registry::seq_configs(prop, tier);
+    if defs.is_empty() && cfgs.is_empty() {
         println!("ENGINE-ERROR: property={prop} has no scenarios registered");
         return 2;
     }
-    run_e1(prop, tier, defs, t0)
+    let mut rep = if !defs.is_empty() { run_e1(prop, tier, defs, t0) } else { empty_report(prop, tier, t0) };
+    if !cfgs.is_empty() {
+        quiet_panics();
+        let (cap, max_states) = match tier { Tier::Quick => (40, 400_000), Tier::Thorough => (1200, 5_000_000) };
+        rep.extra.insert("engine_seqx".into(), json!("E2 seqx: explicit-state BFS over histories of the real object, deduplicated on internal bookkeeping + reference model"));
+        crate::seqx::run_configs(prop, tier, cfgs, cap, max_states, &mut rep);
+    }
+    finish(rep)
 }
 
-fn run_e1(prop: &str, tier: Tier, defs: Vec<ScenarioDef>, t0: Instant) -> i32 {
+pub fn empty_report(prop: &str, tier: Tier, t0: Instant) -> Report {
+    Report { prop: prop.into(), tier, states: 0, transitions: 0, traces: 0, samples: Vec::new(), extra: Map::new(), exhaustive: true,
+             violations: Vec::new(), engine_errors: Vec::new(),
+             assumptions: vec!["sequential histories through the public API of the real objects; trusted: rustc, std, crossbeam-channel, the reference models, the seqx engine".into()], t0 }
+}
+
+/// panics of the subject are caught and judged by the engines; keep stderr clean
+pub fn quiet_panics() {
+    std::panic::set_hook(Box::new(|info| {
+        if std::env::var_os("VH_SHOW_PANICS").is_some() { eprintln!("panic: {info}") }
+    }));
+}
+
+fn run_e1(prop: &str, tier: Tier, defs: Vec<ScenarioDef>, t0: Instant) -> Report {
     let deadline = t0 + wall_cap(tier);
     let max_bound = defs.iter().map(|d| d.max_bound).max().unwrap();
     let exe = std::env::current_exe().unwrap();
@@ -279,7 +300,7 @@ fn run_e1(prop: &str, tier: Tier, defs: Vec<ScenarioDef>, t0: Instant) -> i32 {
         rep.engine_errors.push("not even bound 0 was completed within the wall-clock cap".into());
     }
     drop(res);
-    finish(rep)
+    rep
 }
 
 fn marker_dir() -> String {
@@ -407,6 +428,7 @@ pub fn replay(path: &str) -> i32 {
     let Ok(v) = serde_json::from_str::<Value>(&s) else { eprintln!("not JSON: {path}"); return 2 };
     match v["engine"].as_str() {
         Some("mcx") => replay_mcx(&v),
+        Some("seqx") => replay_seqx(&v),
         other => { eprintln!("unknown engine {:?}", other); 2 }
     }
 }
@@ -426,5 +448,27 @@ fn replay_mcx(v: &Value) -> i32 {
     if violations.is_empty() { println!("no violation on this schedule"); 0 } else {
         for (k, d) in violations { println!("VIOLATION property={prop} replay=<this file> kind={k} -- {d}") }
         1
+    }
+}
+
+fn replay_seqx(v: &Value) -> i32 {
+    quiet_panics();
+    let prop = v["prop"].as_str().unwrap_or("");
+    let tier = Tier::parse(v["tier"].as_str().unwrap_or("thorough")).unwrap_or(Tier::Thorough);
+    let name = v["config"].as_str().unwrap_or("");
+    let cfgs = registry::seq_configs(prop, tier);
+    let Some(cfg) = cfgs.iter().find(|c| c.name == name) else { eprintln!("unknown configuration {name}"); return 2 };
+    let choices: Vec<usize> = v["choices"].as_array().map(|a| a.iter().map(|c| c.as_u64().unwrap_or(0) as usize).collect()).unwrap_or_default();
+    println!("configuration: {name}");
+    match crate::seqx::replay(cfg, &choices) {
+        Ok((mut sys, names, obs)) => {
+            for (n, o) in names.iter().zip(obs.iter()) { println!("  {n} => {o}") }
+            match sys.epilogue() { Ok(()) => { println!("no violation on this history"); 0 }, Err((k, d)) => { println!("VIOLATION property={prop} replay=<this file> kind={k} -- {d} (epilogue)"); 1 } }
+        }
+        Err((i, names, (k, d))) => {
+            for n in names.iter() { println!("  {n}") }
+            println!("VIOLATION property={prop} replay=<this file> kind={k} -- at step {i}: {d}");
+            1
+        }
     }
 }
